@@ -223,6 +223,12 @@ def r2_charges(ctx, shifts_by_class):
                 culprits = [a for a in sorted(g.ancestors(t)) if getattr(vals.get(a), "kind", None) == "top"][:4]
                 ctx.unknown("C10.R2", m, m.node, f"{g.cfg.name}: `{t}` goes through an operation the charge domain does not model (first such ancestors: {culprits})",
                             construct=f"charge of {t}", instance=g.cfg.name)
+            elif kind == "split":
+                culprits = [a for a in sorted(g.ancestors(t) | {t}) if getattr(vals.get(a), "kind", None) == "split"][:3]
+                ctx.violation("C10.R2", m, m.node, f"{g.cfg.name}: `{t}` is unchanged by the re-centring only through the cancellation of powers `x ** e` (e not a constant) of quantities that the "
+                              f"re-centring rescales (first in {culprits}): exact over the reals, but in float32 these factors under/overflow separately for sharp hazards (nu**rho beyond 1e38), so "
+                              f"the {'trajectory' if t == 'model' else 'likelihood'} changes under the re-centring; the documented form raises the invariant ratio to the power",
+                              construct=f"charge of {t}", instance=g.cfg.name)
             else:
                 # find the first non-invariant ancestor chain for the diagnosis
                 culprits = [a for a in sorted(g.ancestors(t)) if getattr(vals.get(a), "kind", None) == "unk"][:4]
